@@ -128,6 +128,14 @@ func (m *mitm) tamperDual(dp *schema.DualProof) string {
 			return "dual.linear"
 		}
 	case 7:
+		if m.rng.Bool() && dp.TargetTxHeader != nil {
+			dp.TargetTxHeader.Ts++
+			if dp.LinearProof != nil && len(dp.LinearProof.Terms) > 1 && dp.LinearProof.TargetTxId == dp.TargetTxHeader.Id {
+				in := innerOf(schema.TxHeaderFromProto(dp.TargetTxHeader))
+				dp.LinearProof.Terms[len(dp.LinearProof.Terms)-1] = in[:]
+			}
+			return "dual.target-forged-coherent"
+		}
 		dp.SourceTxHeader, dp.TargetTxHeader = dp.TargetTxHeader, dp.SourceTxHeader
 		return "dual.swap-headers"
 	case 8:
@@ -207,6 +215,25 @@ func (m *mitm) interceptor(ctx context.Context, method string, req, reply interf
 				r.Entry.Key = flipBytes(m.rng, r.Entry.Key)
 			case "entry.tx":
 				r.Entry.Tx++
+			case "dual.target-hdr.ts":
+				if r.VerifiableTx != nil && r.VerifiableTx.DualProof != nil && r.VerifiableTx.DualProof.TargetTxHeader != nil {
+					r.VerifiableTx.DualProof.TargetTxHeader.Ts++
+				}
+			case "dual.target-forged-coherent":
+				// a forged target header together with the matching last linear-proof term: every check that does
+				// not involve the locally trusted hash still passes
+				if r.VerifiableTx != nil && r.VerifiableTx.DualProof != nil && r.VerifiableTx.DualProof.TargetTxHeader != nil {
+					dp := r.VerifiableTx.DualProof
+					dp.TargetTxHeader.Ts++
+					if dp.LinearProof != nil && len(dp.LinearProof.Terms) > 1 && dp.LinearProof.TargetTxId == dp.TargetTxHeader.Id {
+						in := innerOf(schema.TxHeaderFromProto(dp.TargetTxHeader))
+						dp.LinearProof.Terms[len(dp.LinearProof.Terms)-1] = in[:]
+					}
+				}
+			case "dual.source-hdr.ts":
+				if r.VerifiableTx != nil && r.VerifiableTx.DualProof != nil && r.VerifiableTx.DualProof.SourceTxHeader != nil {
+					r.VerifiableTx.DualProof.SourceTxHeader.Ts++
+				}
 			}
 			m.kind = m.force
 			return nil
@@ -283,6 +310,14 @@ func (m *mitm) interceptor(ctx context.Context, method string, req, reply interf
 	return nil
 }
 
+var setters map[client.ImmuClient]func(*schema.ImmutableState)
+
+func setState(c client.ImmuClient, st *schema.ImmutableState) {
+	if f, ok := setters[c]; ok {
+		f(st)
+	}
+}
+
 type svcTruth struct {
 	// per (key) -> list of (tx, value, deleted)
 	versions map[string][]svcVersion
@@ -293,7 +328,7 @@ type svcVersion struct {
 	value []byte
 }
 
-func c01Service(r *hx.Result, rng *hx.Rng, nOps int) error {
+func c01Service(r *hx.Result, rng *hx.Rng, nOps int, signed bool) error {
 	r.NextCase()
 	dir := hx.TempDir("c01svc")
 	defer os.RemoveAll(dir)
@@ -301,8 +336,12 @@ func c01Service(r *hx.Result, rng *hx.Rng, nOps int) error {
 	if os.Getenv("VERIF_REPO_DIR") == "" {
 		keyDir = "/repo/test/signer"
 	}
-	opts := server.DefaultOptions().WithDir(filepath.Join(dir, "srv")).WithSigningKey(filepath.Join(keyDir, "ec1.key")).
+	opts := server.DefaultOptions().WithDir(filepath.Join(dir, "srv")).
 		WithMetricsServer(false).WithWebServer(false).WithPgsqlServer(false).WithLogfile(filepath.Join(dir, "srv.log"))
+	if signed {
+		opts = opts.WithSigningKey(filepath.Join(keyDir, "ec1.key"))
+	}
+	r.Count(fmt.Sprintf("svc.config.signed=%v", signed))
 	bs := servertest.NewBufconnServer(opts)
 	if err := bs.Start(); err != nil {
 		return err
@@ -310,14 +349,25 @@ func c01Service(r *hx.Result, rng *hx.Rng, nOps int) error {
 	defer bs.Stop()
 	m := &mitm{rng: rng.Fork()}
 	stateOf := map[client.ImmuClient]func() (uint64, []byte){}
+	setters = map[client.ImmuClient]func(*schema.ImmutableState){}
 	newClient := func(stateDir string) (client.ImmuClient, error) {
 		os.MkdirAll(stateDir, 0o755)
-		c := client.NewClient().WithOptions(client.DefaultOptions().WithDir(stateDir).
-			WithServerSigningPubKey(filepath.Join(keyDir, "ec1.pub")).
+		copts := client.DefaultOptions().WithDir(stateDir)
+		if signed {
+			copts = copts.WithServerSigningPubKey(filepath.Join(keyDir, "ec1.pub"))
+		}
+		c := client.NewClient().WithOptions(copts.
 			WithDialOptions([]grpc.DialOption{grpc.WithContextDialer(bs.Dialer), grpc.WithTransportCredentials(insecure.NewCredentials()),
 				grpc.WithChainUnaryInterceptor(m.interceptor)}))
 		if err := c.OpenSession(context.Background(), []byte("immudb"), []byte("immudb"), "defaultdb"); err != nil {
 			return nil, err
+		}
+		setters[c] = func(st *schema.ImmutableState) {
+			if err := c.StateService.CacheLock(); err != nil {
+				return
+			}
+			defer c.StateService.CacheUnlock()
+			c.StateService.SetState("defaultdb", st)
 		}
 		stateOf[c] = func() (uint64, []byte) {
 			if err := c.StateService.CacheLock(); err != nil {
@@ -397,6 +447,7 @@ func c01Service(r *hx.Result, rng *hx.Rng, nOps int) error {
 		}
 	}
 	clients := []client.ImmuClient{cl, cl2}
+	prevState := map[client.ImmuClient]uint64{}
 	for op := 0; op < nOps; op++ {
 		c := clients[0]
 		who := "client1"
@@ -526,10 +577,51 @@ func c01Service(r *hx.Result, rng *hx.Rng, nOps int) error {
 				}
 			}
 		}
-		// after every verified call: the client's stored state must be a genuine state of the server
-		st, err := c.CurrentState(ctx) // server-side truth for the newest tx
-		if err == nil {
-			truth.alhs[st.TxId] = st.TxHash
+		// after every call: the state the client stored must be a genuine (txID, Alh) of the server's history.
+		// Without state signatures a tampered response can move the client to a DIFFERENT FUTURE (a forged tx
+		// newer than its previous state): unpreventable, counted. Replacing or rewriting a state at or below the
+		// previously trusted tx is a violation.
+		m.mu.Lock()
+		m.armed = false
+		m.mu.Unlock()
+		if tx, h := stateOf[c](); tx > 0 {
+			r.OracleChecks++
+			real, ok := realAlh(ctx, c, truth, tx)
+			if ok && !bytes.Equal(real, h) {
+				prev := prevState[c]
+				if tx > prev && !signed {
+					r.Count("svc.state.different-future-accepted(unsigned)")
+					// the client is now on a forged future: reset it to the genuine state to continue
+					resetState(c, ctx)
+				} else {
+					r.Fail("C01:client:trusted-state-replaced", fmt.Sprintf("%s: after op %d the stored state is (tx=%d, %x…) but the history's Alh of tx %d is %x… (previous trusted tx %d, signed=%v)", who, op, tx, h[:6], tx, real[:6], prev, signed),
+						map[string]interface{}{"op": op})
+					resetState(c, ctx)
+				}
+			}
+			if t2, _ := stateOf[c](); t2 > 0 {
+				prevState[c] = t2
+			}
+		}
+	}
+	checkState := func(c client.ImmuClient, who, what string) {
+		tx, h := stateOf[c]()
+		if tx == 0 {
+			return
+		}
+		r.OracleChecks++
+		real, ok := realAlh(ctx, c, truth, tx)
+		if ok && !bytes.Equal(real, h) {
+			prev := prevState[c]
+			if tx > prev && !signed {
+				r.Count("svc.state.different-future-accepted(unsigned)")
+			} else {
+				r.Fail("C01:client:trusted-state-replaced", fmt.Sprintf("%s: after %s the stored state is (tx=%d, %x…) but the history's Alh of tx %d is %x… (previous trusted tx %d, signed=%v)", who, what, tx, h[:6], tx, real[:6], prev, signed), map[string]interface{}{"probe": what})
+			}
+			resetState(c, ctx)
+		}
+		if t2, _ := stateOf[c](); t2 > 0 {
+			prevState[c] = t2
 		}
 	}
 	// targeted probes (deterministic coverage of the alterations that matter most)
@@ -549,13 +641,14 @@ func c01Service(r *hx.Result, rng *hx.Rng, nOps int) error {
 		if len(vs) == 0 || refs[key] != "" {
 			continue
 		}
-		for _, kind := range []string{"entry.value", "entry.key", "entry.tx"} {
+		for _, kind := range []string{"entry.value", "entry.key", "entry.tx", "dual.target-hdr.ts", "dual.source-hdr.ts", "dual.target-forged-coherent"} {
 			atTx := vs[rng.Intn(len(vs))].tx
 			t0, h0 := stateOf[cl]()
 			arm(kind)
 			e, err := cl.VerifiedGetAt(ctx, []byte(key), atTx)
 			k := disarm()
 			emitCget(r, m, cl, stateOf[cl], t0, h0, err, k)
+			checkState(cl, "client1", "VerifiedGetAt/"+kind)
 			r.Count("svc.probe.vgetat." + okStr(err) + "." + kindOr(k))
 			r.Eval("probe-vgetat-"+key+kind, true)
 			if err == nil && k != "" {
@@ -566,6 +659,7 @@ func c01Service(r *hx.Result, rng *hx.Rng, nOps int) error {
 			e, err = cl.VerifiedGet(ctx, []byte(key))
 			k = disarm()
 			emitCget(r, m, cl, stateOf[cl], t0, h0, err, k)
+			checkState(cl, "client1", "VerifiedGet/"+kind)
 			r.Count("svc.probe.vget." + okStr(err) + "." + kindOr(k))
 			if err == nil && k != "" {
 				checkEntry(cl, "client1", e, key, 0, k)
@@ -607,6 +701,35 @@ func c01Service(r *hx.Result, rng *hx.Rng, nOps int) error {
 	}
 	r.Sample(map[string]interface{}{"kind": "service-level", "ops": nOps, "keys": len(keys)})
 	return nil
+}
+
+// realAlh: the genuine accumulated hash of tx id, from an untampered read of its header.
+func realAlh(ctx context.Context, c client.ImmuClient, truth *svcTruth, id uint64) ([]byte, bool) {
+	if h, ok := truth.alhs[id]; ok {
+		return h, true
+	}
+	tx, err := c.TxByID(ctx, id)
+	if err != nil || tx == nil || tx.Header == nil {
+		return nil, false
+	}
+	a := schema.TxHeaderFromProto(tx.Header).Alh()
+	truth.alhs[id] = a[:]
+	return a[:], true
+}
+
+// resetState puts the genuine current server state into the client's cache.
+func resetState(c client.ImmuClient, ctx context.Context) {
+	type setter interface {
+		CurrentState(ctx context.Context) (*schema.ImmutableState, error)
+	}
+	st, err := c.CurrentState(ctx)
+	if err != nil {
+		return
+	}
+	if cc, ok := c.(interface{ GetOptions() *client.Options }); ok {
+		_ = cc
+	}
+	setState(c, st)
 }
 
 // cgetLine renders the exchange the client saw (after tampering) for the Lean client-flow model.
